@@ -85,10 +85,22 @@ T3 = [
  ("R3_C03_3", "C02", 3, [("demo3.rs", "server/tests/c03_demo3.rs")], "cargo test -p server --offline --test c03_demo3", ["C03", "C02", "C17"]),
 ]
 
+T4 = [
+ ("R4_C01_1", "C01", 1, [("demo1.rs", "server/tests/demo1.rs")], "cargo test -p server --offline --test demo1", ["C01", "C17"]),
+ ("R4_C02_2", "C01", 2, [("demo2.rs", "server/tests/demo2.rs")], "cargo test -p server --offline --test demo2", ["C02", "C17"]),
+ ("R4_C17_3", "C01", 3, [("demo3.rs", "model/tests/demo3.rs")], "cargo test -p model --offline --test demo3", ["C17"]),
+ ("R4_C03_1", "C03", 1, [("demo1.rs", "server/tests/demo1.rs")], "cargo test --offline -p server --test demo1", ["C03"]),
+ ("R4_C04_2", "C03", 2, [("demo2.rs", "server/tests/demo2.rs")], "cargo test --offline -p server --test demo2", ["C04", "C17", "C09"]),
+ ("R4_C07_3", "C03", 3, [("demo3.rs", "server/tests/demo3.rs")], "cargo test --offline -p server --test demo3", ["C07", "C14"]),
+ ("R4_C05_1", "C05", 1, [("demo1.rs", "server/tests/r4_demo1.rs")], "cargo test --offline -p server --features verif --test r4_demo1", ["C05", "C16", "C11", "C08"]),
+ ("R4_C05_2", "C05", 2, [("demo2.rs", "server/tests/r4_demo2.rs")], "cargo test --offline -p server --features verif --test r4_demo2", ["C05", "C16", "C11", "C08"]),
+ ("R4_C05_3", "C05", 3, [("demo3.rs", "server/tests/r4_demo3.rs")], "cargo test --offline -p server --features verif --test r4_demo3", ["C05", "C16", "C11", "C08"]),
+]
+
 def confirm2(only):
     path = "/verif/notes/seeded2_confirm.json"
     res = json.load(open(path)) if os.path.exists(path) else {}
-    for (key, wtid, k, demos, cmd, _checks) in T2 + T3:
+    for (key, wtid, k, demos, cmd, _checks) in T2 + T3 + T4:
         if only and key not in only:
             continue
         wt = "%s/%s" % (SRC, wtid); out = "%s/%s-out" % (SRC, wtid)
@@ -120,7 +132,7 @@ def detect2(only):
     res = json.load(open(path)) if os.path.exists(path) else {}
     if sh("git -C /repo diff --quiet")[0] != 0:
         print("/repo dirty"); sys.exit(2)
-    for (key, wtid, k, demos, cmd, checks) in T2 + T3:
+    for (key, wtid, k, demos, cmd, checks) in T2 + T3 + T4:
         if only and key not in only:
             continue
         diff = "%s/%s-out/change%d.diff" % (SRC, wtid, k)
